@@ -339,8 +339,20 @@ impl<K: CacheKey + 'static> DiskCache<K> {
             .await
             .map_err(|_| CacheError::Backend("Failed to acquire I/O semaphore".to_string()))?;
 
-        // Write to temporary file first for atomicity
-        let temp_path = path.with_extension("tmp");
+        // Write to temporary file first for atomicity. The name is unique per write:
+        // two writers of one key (or of keys that differ only in their extension) must
+        // not truncate and rename each other's temporary file.
+        static TEMP_SEQ: AtomicU64 = AtomicU64::new(0);
+        let mut temp_name = path
+            .file_name()
+            .map(std::ffi::OsStr::to_os_string)
+            .unwrap_or_default();
+        temp_name.push(format!(
+            ".{}-{}.tmp",
+            std::process::id(),
+            TEMP_SEQ.fetch_add(1, Ordering::Relaxed)
+        ));
+        let temp_path = path.with_file_name(temp_name);
 
         // Ensure parent directory exists
         if let Some(parent) = temp_path.parent() {
